@@ -17,6 +17,15 @@ from .core import AnalysisError, fold, NotConst, unparse, OpNamespace
 MAX_UNROLL = 300
 
 
+class LocalFn:
+    """a closure-free nested function definition bound in the local environment"""
+    def __init__(self, node):
+        self.node = node
+
+    def __repr__(self):
+        return '<local function %s>' % self.node.name
+
+
 class S:
     """Symbolic value."""
     __slots__ = ('t', 'ty')
@@ -490,7 +499,15 @@ class Interp:
                 if it.optional_vars is not None:
                     self.assign(it.optional_vars, v, st)
             return self.exec_block(s.body, st)
-        if isinstance(s, (ast.FunctionDef, ast.ClassDef, ast.Import, ast.ImportFrom, ast.Global, ast.Nonlocal)):
+        if isinstance(s, ast.FunctionDef):
+            # a nested helper that reads nothing but its own parameters, module names and builtins can be inlined at its call sites
+            own = set(x.arg for x in s.args.posonlyargs + s.args.args + s.args.kwonlyargs)
+            own |= set(n.id for n in ast.walk(s) if isinstance(n, ast.Name) and isinstance(n.ctx, ast.Store))
+            free = set(n.id for n in ast.walk(s) if isinstance(n, ast.Name) and isinstance(n.ctx, ast.Load)) - own
+            if not (free & set(st.env)) and not s.decorator_list:
+                st.env[s.name] = LocalFn(s)
+            return st
+        if isinstance(s, (ast.ClassDef, ast.Import, ast.ImportFrom, ast.Global, ast.Nonlocal)):
             return st
         if isinstance(s, ast.Delete):
             for t in s.targets:
@@ -728,7 +745,14 @@ class Interp:
         if r is not None and s.orelse:
             r = self.exec_block(s.orelse, r)
         ends = [r] if r is not None else []
-        for h in s.handlers:
+        # a body of plain assignments that were evaluated on constants to constants has run without an exception: no handler is entered
+        trivially_done = (r is not None and not caught_any and all(
+            isinstance(x, ast.Assign) and all(isinstance(t, ast.Name) for t in x.targets) and
+            all(isinstance(n, (ast.Name, ast.Constant, ast.Call, ast.Attribute, ast.Load, ast.BinOp, ast.operator)) for n in ast.walk(x.value)) and
+            all(is_conc(pre.env.get(n.id)) for n in ast.walk(x.value) if isinstance(n, ast.Name) and n.id in pre.env) and
+            all(n.id in pre.env for n in ast.walk(x.value) if isinstance(n, ast.Name) and isinstance(n.ctx, ast.Load) and not isinstance(getattr(n, '_p', None), ast.Call)) and
+            all(is_conc(r.env.get(t.id)) for t in x.targets) for x in s.body))
+        for h in ([] if trivially_done else s.handlers):
             hst = pre.copy()
             tname = unparse(h.type) if h.type is not None else 'BaseException'
             hst.pc.append((('exc', tname, getattr(h, 'lineno', 0)), True))
@@ -1260,6 +1284,8 @@ class Interp:
         b = self.builtin(name, args, kwargs, st)
         if b is not NotImplemented:
             return b
+        if isinstance(st.env.get(name), LocalFn):
+            return self.inline_call(st.env[name].node, self.modname, args, kwargs, st)
         if name in st.env:
             return S(('call', show(term(st.env[name])), tuple(term(a) for a in args), _kw(kwargs)))
         r = self.repo.resolve_name(self.modname, name)
